@@ -510,3 +510,157 @@ theorem encoder_export_unimportable (cfg : Cfg) (P : Prims) (k : Key) (mode : Mo
   | panic s => rw [he] at h; cases h
 
 end Askar.Jwk
+
+/-! ## third wave: members with a non-string value; the concrete types' own `from_jwk`; the length accessors -/
+
+namespace Askar.Jwk
+
+/-- token level: a string-valued member (`kty kid alg crv x y d k use`) with any other JSON value is refused by the visitor -/
+theorem effect_non_string (cfg : Cfg) {key : Bytes} {f : Field} (hf : fieldOf key = some f) (hk : f ≠ .keyOps) (v : JVal)
+    (hv : ∀ s, v ≠ .str s) : effect cfg (key, v) = none := by
+  cases f <;> cases v <;> simp_all [effect]
+
+theorem fromMembers_non_string (cfg : Cfg) (P : Prims) (l₁ l₂ : List (Bytes × JVal)) {key : Bytes} {f : Field}
+    (hf : fieldOf key = some f) (hk : f ≠ .keyOps) (v : JVal) (hv : ∀ s, v ≠ .str s) :
+    fromMembers cfg P (l₁ ++ (key, v) :: l₂) = .err .invalid := by
+  simp [fromMembers, visit_bad_member cfg l₁ l₂ _ (effect_non_string cfg hf hk v hv)]
+
+/-- byte level: `deserialize_str` on input whose first non-blank byte is not `"` -/
+theorem deStr_non_quote (c : UInt8) (r : Bytes) (hw : isWs c = false) (hc : c ≠ 34) : deStr (c :: r) = none := by
+  simp [deStr, skipWs_cons _ hw, hc]
+
+/-- one turn of the loop on a string-valued member whose value text does not start with `"`: the deserializer reports an error -/
+theorem mapLoop_nonString (cfg : Cfg) (fuel : Nat) (inp : Bytes) (first : Bool) (a : Acc) {name : Bytes} {f : Field}
+    (hn : Clean name = true) (hf : fieldOf name = some f) (hk : f ≠ .keyOps) (c : UInt8) (v r : Bytes)
+    (hw : isWs c = false) (hc : c ≠ 34)
+    (hnext : mapNext inp first = some (some (attrText name (c :: v) ++ r))) :
+    mapLoop cfg (fuel + 1) inp first a = none := by
+  rw [mapLoop, hnext, attrText_append]
+  simp only [deStr_quoted hn, hf]
+  cases f <;> first | exact absurd rfl hk | simp [valueStr, colon_cons, List.cons_append, deStr_non_quote c _ hw hc]
+
+/-- an attribute the loop fails on, after any attributes it accepts, before anything: the parse fails -/
+theorem parse_attrs_bad (cfg : Cfg) (xs : List Attr) (hc : ∀ x ∈ xs, x.Ok) (bad : Bytes) (hq : ∃ t, bad = 34 :: t)
+    (hbad : ∀ fuel inp first a r, mapNext inp first = some (some (bad ++ r)) → mapLoop cfg (fuel + 1) inp first a = none)
+    (ts : List Bytes) : parseJwk cfg (renderAttrs (xs.map Attr.text ++ bad :: ts)) = none := by
+  obtain ⟨bt, hbt⟩ := hq
+  cases xs with
+  | nil =>
+    simp only [List.map_nil, List.nil_append, renderAttrs]
+    rw [parseJwk, skipWs_cons _ (show isWs 123 = false by decide)]
+    simp only [if_true]
+    have hnext : mapNext (bad ++ (attrsTail ts ++ [125])) true = some (some (bad ++ (attrsTail ts ++ [125]))) := by
+      rw [hbt, List.cons_append, mapNext_first]
+    rw [hbad _ _ true {} _ hnext]
+  | cons x xs =>
+    have hc' : ∀ y ∈ xs, y.Ok := fun y hy => hc y (by simp [hy])
+    simp only [List.map_cons, List.cons_append, renderAttrs, attrsTail_append, attrsTail, List.append_assoc,
+      List.cons_append]
+    rw [parseJwk, skipWs_cons _ (show isWs 123 = false by decide)]
+    simp only [if_true]
+    generalize hR : attrsTail ts ++ [125] = R
+    have hlen : xs.length + 2 ≤ (x.text ++ (attrsTail (xs.map Attr.text) ++ 44 :: (bad ++ R))).length + 2 := by
+      have := attrsTail_length (xs.map Attr.text)
+      simp only [List.length_map] at this
+      simp only [List.length_append, List.length_cons]
+      omega
+    obtain ⟨g, hg'⟩ := Nat.exists_eq_add_of_le hlen
+    have hg : (x.text ++ (attrsTail (xs.map Attr.text) ++ 44 :: (bad ++ R))).length + 2 = (xs.length + (g + 1)) + 1 := by omega
+    rw [hg, mapLoop_attr cfg _ _ true {} x _ (hc x (by simp)) (mapNext_first_attr x _)]
+    cases visitStep cfg {} x.tok with
+    | none => rfl
+    | some a' =>
+      simp only []
+      rw [mapLoop_attrsTail cfg _ xs hc' (g + 1) a']
+      cases visitFrom cfg a' (xs.map Attr.tok) with
+      | none => rfl
+      | some a'' =>
+        simp only []
+        have hnext : mapNext (44 :: (bad ++ R)) false = some (some (bad ++ R)) := by
+          rw [hbt, List.cons_append, mapNext_comma]
+        rw [hbad g _ false a'' _ hnext]
+
+/-- the text of a JSON object: clean string members, then a string-valued member name with a value text that does not start with
+    `"` (a number, `true`, `null`, `[…`, `{…`), then ANY further attribute texts -/
+def objectWithBadValue (ms : List Member) (name : Bytes) (c : UInt8) (v : Bytes) (ts : List Bytes) : Bytes :=
+  renderAttrs (ms.map (fun m => attrText (sb m.1) (quoted m.2)) ++ attrText name (c :: v) :: ts)
+
+theorem parse_non_string (cfg : Cfg) (ms : List Member) (hc : MembersClean ms = true) {name : Bytes} {f : Field}
+    (hn : Clean name = true) (hf : fieldOf name = some f) (hk : f ≠ .keyOps) (c : UInt8) (v : Bytes)
+    (hw : isWs c = false) (hq : c ≠ 34) (ts : List Bytes) :
+    parseJwk cfg (objectWithBadValue ms name c v ts) = none := by
+  have hm : ms.map (fun m => attrText (sb m.1) (quoted m.2)) = (ms.map Attr.mem).map Attr.text := by
+    simp [Attr.text, Function.comp_def]
+  have hok : ∀ x ∈ ms.map Attr.mem, x.Ok := by
+    intro x hx
+    obtain ⟨m, hm', rfl⟩ := List.mem_map.mp hx
+    simp only [MembersClean, List.all_eq_true, Bool.and_eq_true] at hc
+    exact hc m hm'
+  unfold objectWithBadValue
+  rw [hm]
+  exact parse_attrs_bad cfg _ hok _ ⟨_, attrText_append name (c :: v) [] ▸ (List.append_nil _).symm⟩
+    (fun fuel inp first a r hnext => mapLoop_nonString cfg fuel inp first a hn hf hk c v r hw hq hnext) ts
+
+/-! ### foreign `kty` / `crv` -/
+
+/-- a concrete type's `from_jwk_parts` on a JWK whose `kty` it does not accept or whose `crv` is not its own (or is absent):
+    InvalidKeyData — before any key material is looked at -/
+theorem fromJwkParts_foreign (cfg : Cfg) (P : Prims) (alg : Alg) (j : Parts) (ha : alg.isSymmetric = false)
+    (h : alg.ktyOk j.kty = false ∨ j.crv ≠ some (sb alg.jwkCrv)) : fromJwkParts cfg P alg j = .err .invalidKeyData := by
+  cases alg <;> simp [Alg.isSymmetric] at ha <;>
+    simp only [Alg.ktyOk, Alg.isEc, Alg.isBls, Bool.false_eq_true, if_false, if_true, Bool.or_eq_false_iff,
+      decide_eq_false_iff_not] at h <;>
+    simp only [fromJwkParts, Alg.isEc, Alg.isBls, Bool.false_eq_true, if_false, if_true] <;>
+    (rcases h with h | h <;> simp_all)
+
+theorem jwkCrv_injective (a b : Alg) (ha : a.isSymmetric = false) (hb : b.isSymmetric = false) (hne : a ≠ b) :
+    sb b.jwkCrv ≠ sb a.jwkCrv := by
+  cases a <;> simp [Alg.isSymmetric] at ha <;> cases b <;> simp [Alg.isSymmetric] at hb <;>
+    first | exact absurd rfl hne | decide
+
+/-- the JWK of a key of one asymmetric algorithm, offered to the type of another: InvalidKeyData (all 56 ordered pairs, secret and
+    public form) -/
+theorem fromJwkParts_foreign_export (cfg : Cfg) (P : Prims) (alg : Alg) (k : Key) (withD : Bool) (ha : alg.isSymmetric = false)
+    (hk : k.alg.isSymmetric = false) (hne : alg ≠ k.alg) :
+    fromJwkParts cfg P alg (exportParts k withD) = .err .invalidKeyData := by
+  apply fromJwkParts_foreign cfg P alg _ ha
+  right
+  simp only [exportParts, ne_eq, Option.some.injEq]
+  exact jwkCrv_injective alg k.alg ha hk hne
+
+/-- … and at text level: the exported text of the key, through the byte-level parser -/
+theorem fromJwkTyped_foreign_export (cfg : Cfg) (P : Prims) (alg : Alg) (k : Key) (withD : Bool) (ha : alg.isSymmetric = false)
+    (hk : k.alg.isSymmetric = false) (hne : alg ≠ k.alg) :
+    ∃ t, toJwk k (if withD then .secretKey else .publicKey) none = .ok t ∧ fromJwkTyped cfg P alg t = .err .invalidKeyData := by
+  obtain ⟨ms, he, hcl, hv⟩ := export_visit cfg k hk withD
+  refine ⟨renderMembers ms, by simp [toJwk, he], ?_⟩
+  unfold fromJwkTyped
+  rw [parse_render cfg ms hcl, hv]
+  exact fromJwkParts_foreign_export cfg P alg k withD ha hk hne
+
+/-- the dispatcher and the type agree on the type's own JWKs: `from_jwk_any` selects `alg` ⇒ same result -/
+theorem fromJwkTyped_own (cfg : Cfg) (P : Prims) (alg : Alg) (text : Bytes) (j : Parts) (hp : parseJwk cfg text = some j)
+    (hs : selectAlg j = some alg) : fromJwkTyped cfg P alg text = fromJwk cfg P text := by
+  simp [fromJwkTyped, fromJwk, fromJwkAny, hp, hs]
+
+theorem fromJwkTyped_no_panic (cfg : Cfg) (P : Prims) (alg : Alg) (text : Bytes) : (fromJwkTyped cfg P alg text).isPanic = false := by
+  unfold fromJwkTyped
+  split
+  · exact fromJwkParts_no_panic cfg P alg _
+  · rfl
+
+/-! ### length accessors -/
+
+theorem publicBytesLen_exact {k : Key} {pb : Bytes} (h : toPublicBytes k = .ok pb) (hs : k.pub.length = k.alg.pubLen) :
+    publicBytesLen k = .ok pb.length := by
+  obtain ⟨alg, sec, pub⟩ := k
+  cases alg <;> simp [toPublicBytes, Alg.isSymmetric, Alg.isEc] at h <;> subst h <;>
+    simp [publicBytesLen, Alg.isSymmetric, Alg.pubBytesLen, Alg.isEc, Alg.pubLen, Alg.secretLen] at hs ⊢ <;>
+    first | exact hs.symm | (rw [compress_length _ _ (by omega)])
+
+theorem secretBytesLen_exact {cfg : Cfg} {P : Prims} {alg : Alg} {b : Bytes} {k : Key} (h : fromSecretBytes cfg P alg b = .ok k) :
+    toSecretBytes k = .ok b ∧ secretBytesLen k = .ok b.length := by
+  obtain ⟨ha, hs, hl⟩ := secret_bytes_roundtrip h
+  exact ⟨hs, by rw [secretBytesLen, ha, hl]⟩
+
+end Askar.Jwk
